@@ -416,7 +416,7 @@ def secondaries (c : Chan) (frames : List Int) : Option (List Rec) :=
 def configureTrigger (c : Chan) (ts : TS) (emt : EMT) : Chan × Bool :=
   let e1 := { emt with nsamp := c.nsamp, npre := c.npre }
   if ts.edgeMulti && !e1.valid then (c, true)
-  else ({ c with ts := ts, lastTrig := 0, emt := e1.reset }, false)
+  else ({ c with ts := ts, lastTrig := -2305843009213693952, emt := e1.reset }, false)
 
 /-- `DataStreamProcessor.checkPulseLengths` -/
 def checkLengths (c : Chan) (nsamp npre : Int) : Bool :=
